@@ -215,7 +215,7 @@ CLAIMS.update({
               "nmax modes and returns base['evals']; gkl_sfi is radial column x azimuthal row of the same index; azimuthal rows are 1, cos, sin "
               "of the paired orders; piston_orth is Cannon's eq. 19 matrix; equal-area radial grid; selection by argsort(-eigenvalues); quadrature "
               "weight and eigenvector scalings sqrt(nr), sqrt(2 nr); the kernel is the azimuthal DFT (all nth samples, weight 2 pi/nth) of the structure "
-              "function of the chord length, stored symmetrically; rebin replicates with exactly the requested number of indices per axis (integer "
+              "function of the chord length (the squared chord clamped at zero before its square root, A15), stored symmetrically; rebin replicates with exactly the requested number of indices per axis (integer "
               "arithmetic). NOT decided (most of the property): orthonormality to grid accuracy, zero "
               "mean, the diagonalised covariance, positivity and tip = tilt of the variances, the resampling error - all of which are values "
               "produced by eigh / map_coordinates at run time."),
